@@ -296,6 +296,7 @@ TEST_MENU = [
     ("BETTING_MART", None, "fixed_bet"),
     ("BETTING_MART", None, "agrapa"),
     ("KAPLAN_KOLMOGOROV", None, None),
+    ("WALD_SPRT", None, None),
 ]
 
 
@@ -306,6 +307,8 @@ def gen_test(rng, audit_type):
         menu = [m for m in menu if m[1] != "optimal_comparison"]
     test, estim, bet = rng.pick(menu)
     kw = {}
+    if test == "WALD_SPRT" or estim == "fixed_alternative_mean":
+        kw = {"eta": rng.pick([0.51, 0.55, 0.7, 0.9])}
     if estim == "shrink_trunc":
         kw = {"d": rng.pick([1, 10, 100]), "f": rng.pick([0, 0, 0.5]), "c": rng.pick([0.25, 0.5]),
               "minsd": 1e-6}
